@@ -437,8 +437,12 @@ def retime(index, rep):
             if any(n_ is call_ for n_ in ast.walk(v_)) and isinstance(t_, ast.Attribute):
                 base_txt = view.src(t_.value)
                 hits.append((norm_src(t_), base_txt))
+                later_rebinds = [s_ for s_ in walk_no_nested(host) if isinstance(s_, ast.Assign) and s_.lineno > t_.lineno and any(
+                    isinstance(x_, ast.Name) and x_.id == tcn for tg in s_.targets for x_ in ([tg] if isinstance(tg, ast.Name) else getattr(tg, "elts", [])))]
                 if base_txt == f"{tcn}['each_month_meat_slaughtered']":
                     okh = True
+                elif host is c2r and norm_src(t_.value) == f"{tcn}['each_month_meat_slaughtered']" and not later_rebinds:
+                    okh = True      # stored through the very variable that is returned (not rebound in between)
                 else:
                     # ... or into a copy that is afterwards put there
                     holder = norm_src(t_.value)
